@@ -1,13 +1,14 @@
 (** * C07 - the built-in scaling operation (model of Optic.scale_system / Optic.set_thickness in
-    Model/M_C07.v) against the specification "every length of the prescription times s".
+    Model/M_C07.v) IS the specification "every length of the prescription times s".
 
-    Proved for every prescription (lists of any length), exact reals:
+    Proved for every prescription (lists of any length >= 2: object and image), exact reals:
     - one call of set_thickness(value, k) makes gap k equal to [value], keeps every other gap and
-      puts surface 1 at z = 0 (so the loop of scale_system, which calls it with s * thickness for
-      every gap, produces the vertex list with all gaps multiplied by s);
-    - the radius, aperture and EPD columns of scale_system are the scaled columns;
-    - the decentre columns are returned UNCHANGED: scale_system equals the scaled prescription iff
-      they are zero (the refutation for a decentred lens is in Findings/F_C07.v). *)
+      puts surface 1 at z = 0;
+    - the loop of scale_system over all gaps turns the vertex list z into s * z (first surface at
+      z = 0, as the library keeps it), also when the object gap is skipped (object at infinity:
+      the object entry is then left alone and every other vertex is scaled);
+    - radii, decentres, radial apertures and the EPD are multiplied by s:
+      [scale_system s p = scaled_presc s p]. *)
 From Coq Require Import Reals Lra Lia ZArith List Bool Arith.
 From OV Require Import Ops RInst Gen.C07K Model.Trace Model.M_C07.
 Import ListNotations.
@@ -37,86 +38,243 @@ Qed.
 Lemma map_nth_R (f : R -> R) (l : list R) j : (j < length l)%nat -> nthR (map f l) j = f (nthR l j).
 Proof. intros H. rewrite (nth_indep _ 0 (f 0)) by (rewrite map_length; exact H). apply map_nth. Qed.
 
+Lemma map_nth_gen {A} (f : A -> R) (l : list A) j (d : A) : (j < length l)%nat -> nthR (map f l) j = f (nth j l d).
+Proof. intros H. rewrite (nth_indep _ 0 (f d)) by (rewrite map_length; exact H). apply map_nth. Qed.
+
+Lemma set_nth0_length (l : list R) x : length (set_nth l 0 x) = length l.
+Proof. destruct l; reflexivity. Qed.
+Lemma set_nth0_nth (l : list R) x j : (0 < length l)%nat ->
+  nthR (set_nth l 0 x) j = if (j =? 0)%nat then x else nthR l j.
+Proof. destruct l as [|a l]; [cbn; lia|]. intros _. destruct j; reflexivity. Qed.
+
 (** ** Optic.set_thickness *)
 Section SetThickness.
   Variables (pos : list R) (v : R) (k : nat).
   Hypothesis Hk : (S k < length pos)%nat.
   Let new := set_thickness (O:=ROps) pos v k.
-  Let delta := v - nthR pos (S k) + nthR pos k.
 
   Lemma set_thickness_length : length new = length pos.
-  Proof. unfold new, set_thickness. rewrite map_length, add_from_length. reflexivity. Qed.
-
-  Lemma set_thickness_nth j : (j < length pos)%nat ->
-    nthR new j = (if (S k <=? j)%nat then nthR pos j + delta else nthR pos j)
-                 - (if (S k <=? 1)%nat then nthR pos 1 + delta else nthR pos 1).
   Proof.
-    intros Hj. unfold new, set_thickness, nthT. rops.
-    rewrite map_nth_R by (rewrite add_from_length; exact Hj).
-    rewrite !add_from_nth by lia. reflexivity.
+    unfold new, set_thickness. rewrite map_length. destruct k.
+    - apply set_nth0_length.
+    - apply add_from_length.
+  Qed.
+
+  (** every entry of the result, as a formula *)
+  Lemma set_thickness_nth j : (j < length pos)%nat ->
+    nthR new j =
+    match k with
+    | 0%nat => (if (j =? 0)%nat then nthR pos 1 - v else nthR pos j) - nthR pos 1
+    | S _ => (if (S k <=? j)%nat then nthR pos j + (v - nthR pos (S k) + nthR pos k) else nthR pos j) - nthR pos 1
+    end.
+  Proof.
+    intros Hj. unfold new, set_thickness, nthT. rops. destruct k as [|k'].
+    - rewrite map_nth_R by (rewrite set_nth0_length; exact Hj).
+      rewrite !set_nth0_nth by lia. reflexivity.
+    - rewrite map_nth_R by (rewrite add_from_length; exact Hj).
+      rewrite !add_from_nth by lia.
+      replace (S (S k') <=? 1)%nat with false by (symmetry; apply Nat.leb_gt; lia). reflexivity.
   Qed.
 
   (** the addressed gap becomes the requested thickness *)
   Theorem set_thickness_sets_gap : nthR new (S k) - nthR new k = v.
   Proof.
-    rewrite !set_thickness_nth by lia.
-    replace (S k <=? S k)%nat with true by (symmetry; apply Nat.leb_le; lia).
-    replace (S k <=? k)%nat with false by (symmetry; apply Nat.leb_gt; lia).
-    unfold delta. ring.
+    rewrite !set_thickness_nth by lia. destruct k as [|k'].
+    - cbn [Nat.eqb]. change (T ROps) with R in *. ring.
+    - replace (S (S k') <=? S (S k'))%nat with true by (symmetry; apply Nat.leb_le; lia).
+      replace (S (S k') <=? S k')%nat with false by (symmetry; apply Nat.leb_gt; lia).
+      change (T ROps) with R in *. ring.
   Qed.
 
   (** every other gap keeps its thickness *)
   Theorem set_thickness_keeps_gaps j : j <> k -> (S j < length pos)%nat ->
     nthR new (S j) - nthR new j = nthR pos (S j) - nthR pos j.
   Proof.
-    intros Hjk Hj. rewrite !set_thickness_nth by lia.
-    destruct (Nat.leb_spec (S k) j) as [H1|H1].
-    - replace (S k <=? S j)%nat with true by (symmetry; apply Nat.leb_le; lia). ring.
-    - replace (S k <=? S j)%nat with false by (symmetry; apply Nat.leb_gt; lia). ring.
+    intros Hjk Hj. rewrite !set_thickness_nth by lia. destruct k as [|k'].
+    - destruct j as [|j']; [lia|]. cbn [Nat.eqb]. change (T ROps) with R in *. ring.
+    - destruct (Nat.leb_spec (S (S k')) j) as [H1|H1].
+      + replace (S (S k') <=? S j)%nat with true by (symmetry; apply Nat.leb_le; lia).
+        change (T ROps) with R in *. ring.
+      + replace (S (S k') <=? S j)%nat with false by (symmetry; apply Nat.leb_gt; lia).
+        change (T ROps) with R in *. ring.
   Qed.
 
   (** the first surface is (re)placed at z = 0 *)
   Theorem set_thickness_rebases : nthR new 1 = 0.
-  Proof. rewrite set_thickness_nth by lia. apply Rminus_diag_eq. reflexivity. Qed.
+  Proof.
+    rewrite set_thickness_nth by lia. destruct k as [|k'].
+    - cbn [Nat.eqb]. apply Rminus_diag_eq. reflexivity.
+    - replace (S (S k') <=? 1)%nat with false by (symmetry; apply Nat.leb_gt; lia).
+      apply Rminus_diag_eq. reflexivity.
+  Qed.
 End SetThickness.
 
 Example set_thickness_hyp_ok : (S 1 < length [(-100)%R; 0%R; 5%R; 60%R])%nat.
 Proof. cbn. lia. Qed.
 
-(** ** the other columns of scale_system *)
-Theorem scale_system_radii s (p : @presc ROps) : pc_R (scale_system (O:=ROps) s p) = map (fun r => r * s) (pc_R p).
-Proof. reflexivity. Qed.
-
-Theorem scale_system_apertures s (p : @presc ROps) :
-  pc_ap (scale_system (O:=ROps) s p) = map (fun a => match a with Some (a1, a2) => Some (a1 * s, a2 * s) | None => None end) (pc_ap p).
-Proof. reflexivity. Qed.
-
-Theorem scale_system_aperture_value s (p : @presc ROps) :
-  pc_apval (scale_system (O:=ROps) s p) = if pc_epd p then pc_apval p * s else pc_apval p.
-Proof. reflexivity. Qed.
-
-(** the decentres are returned unchanged, whatever s ... *)
-Theorem scale_system_keeps_decentres s (p : @presc ROps) :
-  pc_dx (scale_system (O:=ROps) s p) = pc_dx p /\ pc_dy (scale_system (O:=ROps) s p) = pc_dy p.
-Proof. split; reflexivity. Qed.
-
-(** ... so on these columns the operation meets the specification exactly when they vanish (or s = 1) *)
-Theorem scale_system_decentres_partial s (p : @presc ROps) :
-  Forall (fun d => d = 0) (pc_dx p) -> Forall (fun d => d = 0) (pc_dy p) ->
-  pc_dx (scale_system (O:=ROps) s p) = pc_dx (scaled_presc (O:=ROps) s p) /\ pc_dy (scale_system (O:=ROps) s p) = pc_dy (scaled_presc (O:=ROps) s p).
+(** ** SurfaceGroup.get_thickness (regenerated kernel) on an in-range index *)
+Lemma getZ_nth (l : list R) i : (i < length l)%nat -> getZ (O:=ROps) l (Z.of_nat i) = nthR l i.
 Proof.
-  intros Hx Hy. cbn [scale_system scaled_presc pc_dx pc_dy]. split.
-  - induction Hx as [|d l Hd Hl IH]; [reflexivity|]. cbn [map]. rewrite <- IH, Hd. rops. f_equal. ring.
-  - induction Hy as [|d l Hd Hl IH]; [reflexivity|]. cbn [map]. rewrite <- IH, Hd. rops. f_equal. ring.
+  intros H.
+  assert (E1 : (Z.of_nat i <? 0)%Z = false) by (apply Z.ltb_ge; lia).
+  assert (E2 : (Z.of_nat (@length (T ROps) l) <=? Z.of_nat i)%Z = false) by (apply Z.leb_gt; cbn [T ROps]; lia).
+  unfold getZ, nthZ. cbv zeta. rewrite !E1. cbv beta iota. rewrite ?E1, E2. cbn [orb].
+  rewrite Nat2Z.id. change (@nth_error (T ROps) l i) with (@nth_error R l i).
+  rewrite (nth_error_nth' l 0 H). reflexivity.
 Qed.
 
-Theorem scale_system_columns_meet_spec s (p : @presc ROps) :
-  pc_R (scale_system (O:=ROps) s p) = pc_R (scaled_presc (O:=ROps) s p) /\
-  pc_ap (scale_system (O:=ROps) s p) = pc_ap (scaled_presc (O:=ROps) s p) /\
-  pc_apval (scale_system (O:=ROps) s p) = pc_apval (scaled_presc (O:=ROps) s p).
+Lemma get_thickness_nth (l : list R) i : (S i < length l)%nat ->
+  k_c07_get_thickness ROps (Z.of_nat i) l = nthR l (S i) - nthR l i.
 Proof.
-  cbn [scale_system scaled_presc pc_R pc_ap pc_apval]. rops. repeat split.
-  - apply map_ext. intros r. unfold Rltb. rops. ring.
+  intros H. unfold k_c07_get_thickness. rops.
+  replace (Z.of_nat i + 1)%Z with (Z.of_nat (S i)) by lia.
+  rewrite !getZ_nth by lia. reflexivity.
+Qed.
+
+(** ** the loop of scale_system over the gaps *)
+Section Loop.
+  Variables (z : list R) (s : R).
+  Let n := length z.
+  Hypothesis Hn : (2 <= n)%nat.
+  Hypothesis Hz1 : nthR z 1 = 0.
+
+  (** vertex list after the gaps 0 .. i-1 have been handled (i >= 1), with [a0] at the object entry *)
+  Definition inv (a0 : R) (i : nat) : list R :=
+    map (fun j => if (j =? 0)%nat then a0
+                  else if (j <=? i)%nat then s * nthR z j else nthR z j + (s - 1) * nthR z i) (seq 0 n).
+
+  Lemma inv_length a0 i : length (inv a0 i) = n.
+  Proof. unfold inv. rewrite map_length, seq_length. reflexivity. Qed.
+
+  Lemma inv_nth a0 i j : (j < n)%nat ->
+    nthR (inv a0 i) j = if (j =? 0)%nat then a0
+                        else if (j <=? i)%nat then s * nthR z j else nthR z j + (s - 1) * nthR z i.
+  Proof.
+    intros Hj. unfold inv. rewrite (map_nth_gen _ _ _ 0%nat) by (rewrite seq_length; exact Hj).
+    rewrite seq_nth by exact Hj. reflexivity.
+  Qed.
+
+  Ltac cases :=
+    repeat match goal with
+           | |- context [(?a <=? ?b)%nat] => destruct (Nat.leb_spec a b)
+           | |- context [(?a =? ?b)%nat] => destruct (Nat.eqb_spec a b)
+           end; try lia.
+
+  (** the object gap: set_thickness(s * t0, 0) *)
+  Lemma step0 : set_thickness (O:=ROps) z ((nthR z 1 - nthR z 0) * s) 0 = inv (s * nthR z 0) 1.
+  Proof.
+    apply (nth_ext _ _ 0 0).
+    - rewrite set_thickness_length by (fold n; lia). rewrite inv_length. reflexivity.
+    - intros j Hj. rewrite set_thickness_length in Hj by (fold n; lia). fold n in Hj.
+      rewrite set_thickness_nth by (fold n; lia). rewrite inv_nth by exact Hj.
+      rewrite Hz1. cases; subst; try (change (T ROps) with R in *; ring).
+      + assert (j = 1%nat) by lia. subst j. rewrite Hz1. ring.
+  Qed.
+
+  (** an inner gap i >= 1: set_thickness(s * t_i, i) *)
+  Lemma step a0 i : (1 <= i)%nat -> (S i < n)%nat ->
+    set_thickness (O:=ROps) (inv a0 i) ((nthR z (S i) - nthR z i) * s) i = inv a0 (S i).
+  Proof.
+    intros Hi HSi.
+    assert (Hl : (S i < length (inv a0 i))%nat) by (rewrite inv_length; exact HSi).
+    apply (nth_ext _ _ 0 0).
+    - rewrite set_thickness_length by exact Hl. rewrite !inv_length. reflexivity.
+    - intros j Hj. rewrite set_thickness_length in Hj by exact Hl. rewrite inv_length in Hj.
+      rewrite set_thickness_nth by (try exact Hl; rewrite inv_length; exact Hj).
+      destruct i as [|i']; [lia|].
+      rewrite !inv_nth by lia.
+      cases; subst; try rewrite Hz1; try (change (T ROps) with R in *; ring).
+      + assert (j = S (S i')) by lia. subst j. ring.
+  Qed.
+
+  Definition thick (i : nat) : R := k_c07_get_thickness ROps (Z.of_nat i) z.
+
+  (** the gaps i, i+1, ..., n-2, starting from the state after gap i-1 *)
+  Lemma loop a0 : forall m i, (1 <= i)%nat -> (i + m = n - 1)%nat ->
+    scale_pos (O:=ROps) s n (map thick (seq i m)) i (inv a0 i) = inv a0 (n - 1).
+  Proof.
+    induction m as [|m IH]; intros i Hi Him.
+    - cbn [seq map scale_pos]. replace i with (n - 1)%nat by lia. reflexivity.
+    - cbn [seq map scale_pos]. rops. unfold isinf_. cbn [ROps negb andb].
+      replace (i =? n - 1)%nat with false by (symmetry; apply Nat.eqb_neq; lia). cbn [negb andb].
+      replace (thick i) with (nthR z (S i) - nthR z i)
+        by (unfold thick; rewrite get_thickness_nth by (fold n; lia); reflexivity).
+      rewrite (step a0 i Hi) by lia. apply IH; lia.
+  Qed.
+
+  Lemma inv_final : inv (s * nthR z 0) (n - 1) = map (Rmult s) z.
+  Proof.
+    apply (nth_ext _ _ 0 0).
+    - rewrite inv_length, map_length. reflexivity.
+    - intros j Hj. rewrite inv_length in Hj. rewrite inv_nth by exact Hj.
+      rewrite map_nth_R by exact Hj. cases; subst; reflexivity.
+  Qed.
+
+  (** finite object distance: every vertex position is multiplied by s *)
+  Theorem scale_pos_is_scaling :
+    scale_pos (O:=ROps) s n (thicknesses (O:=ROps) z) 0 z = map (Rmult s) z.
+  Proof.
+    unfold thicknesses. change (@length (T ROps) z) with n. fold thick.
+    replace (n - 1)%nat with (S (n - 2)) by lia. cbn [seq map scale_pos].
+    rops. unfold isinf_. cbn [ROps negb andb].
+    replace (0 =? n - 1)%nat with false by (symmetry; apply Nat.eqb_neq; lia). cbn [negb andb].
+    replace (thick 0) with (nthR z 1 - nthR z 0)
+      by (unfold thick; rewrite (get_thickness_nth z 0) by (fold n; lia); reflexivity).
+    rewrite step0. rewrite (loop (s * nthR z 0) (n - 2) 1) by lia. apply inv_final.
+  Qed.
+
+  (** object at infinity (the object gap is skipped by the isinf test): the object entry, whatever
+      it is, is left alone and every other vertex position is multiplied by s *)
+  Theorem scale_pos_after_object_gap (a0 : R) (j : nat) : (1 <= j < n)%nat ->
+    nthR (scale_pos (O:=ROps) s n (map thick (seq 1 (n - 2))) 1 (inv a0 1)) j = s * nthR z j
+    /\ nthR (scale_pos (O:=ROps) s n (map thick (seq 1 (n - 2))) 1 (inv a0 1)) 0 = a0.
+  Proof.
+    intros Hj. rewrite (loop a0 (n - 2) 1) by lia. rewrite !inv_nth by lia. split; cases; reflexivity.
+  Qed.
+End Loop.
+
+(** the state "after the object gap" of the previous theorem is the untouched vertex list *)
+Lemma inv_1_is_start (z : list R) (s : R) : (2 <= length z)%nat -> nthR z 1 = 0 -> inv z s (nthR z 0) 1 = z.
+Proof.
+  intros Hn Hz1. apply (nth_ext _ _ 0 0).
+  - apply inv_length.
+  - intros j Hj. rewrite inv_length in Hj. rewrite inv_nth by exact Hj.
+    destruct (Nat.eqb_spec j 0); [subst; reflexivity|].
+    destruct (Nat.leb_spec j 1).
+    + assert (j = 1%nat) by lia. subst j. rewrite Hz1. ring.
+    + rewrite Hz1. ring.
+Qed.
+
+(** object at infinity, stated on the model's own terms: the loop entered after the (skipped) object gap *)
+Theorem scale_pos_infinite_object (z : list R) (s : R) (j : nat) :
+  (2 <= length z)%nat -> nthR z 1 = 0 -> (1 <= j < length z)%nat ->
+  nthR (scale_pos (O:=ROps) s (length z) (tl (thicknesses (O:=ROps) z)) 1 z) j = s * nthR z j /\
+  nthR (scale_pos (O:=ROps) s (length z) (tl (thicknesses (O:=ROps) z)) 1 z) 0 = nthR z 0.
+Proof.
+  intros Hn Hz1 Hj.
+  pose proof (scale_pos_after_object_gap z s Hn Hz1 (nthR z 0) j Hj) as H.
+  rewrite inv_1_is_start in H by assumption.
+  replace (tl (thicknesses (O:=ROps) z)) with (map (thick z) (seq 1 (length z - 2))); [exact H|].
+  unfold thicknesses. change (@length (T ROps) z) with (length z).
+  replace (length z - 1)%nat with (S (length z - 2)) by lia. reflexivity.
+Qed.
+
+(** ** the whole operation *)
+Theorem scale_system_is_scaling (s : R) (p : @presc ROps) :
+  (2 <= length (pc_pos p))%nat -> nthR (pc_pos p) 1 = 0 ->
+  scale_system (O:=ROps) s p = scaled_presc (O:=ROps) s p.
+Proof.
+  intros Hn Hz1. unfold scale_system, scaled_presc. f_equal.
+  - apply map_ext. intros r. rops. ring.
+  - rops. apply scale_pos_is_scaling; assumption.
+  - apply map_ext. intros r. rops. ring.
+  - apply map_ext. intros r. rops. ring.
   - apply map_ext. intros [[a1 a2]|]; [|reflexivity]. unfold scale_aper, k_c07_ap_scale. rops. f_equal. f_equal; ring.
-  - destruct (pc_epd p); [ring|reflexivity].
+  - destruct (pc_epd p); rops; [ring|reflexivity].
 Qed.
+
+Example scale_system_hyp_ok :
+  let p := mkPresc (O:=ROps) [0; 50; -50; 0] [-100; 0; 4; 49] [0; 1/5; 0; 0] [0; -1/10; 0; 0]
+                   [None; None; None; None] true 6 in
+  (2 <= length (pc_pos p))%nat /\ nthR (pc_pos p) 1 = 0.
+Proof. cbn. split; [lia|reflexivity]. Qed.
